@@ -71,7 +71,7 @@ KNOWN_WITNESSES = {
 
 
 def corpus():
-    return [dict(c) for c in KNOWN_WITNESSES.values()]
+    return [dict(c) for k, c in KNOWN_WITNESSES.items() if k != EMPTY_FILTER_KEY or _empty_filter_chunks_enabled()]
 
 
 # ------------------------------------------------------------------ data
@@ -785,6 +785,8 @@ def nontrivial(case, res):
 
 def key(case, res):
     st = case['stage']
+    if st in ('iirfilter', 'decimate') and 0 in case['sizes']:
+        return EMPTY_FILTER_KEY
     if st == 'downsample' and case.get('ann'):
         return KNOWN_KEYS[st]
     if st == 'decimate' and len(case['sizes']) > 1:
@@ -926,6 +928,8 @@ def _er_case(rng, sizes, bsz, stp, lo=None):
             'sizes': list(sizes), 'events': events}
 
 
+KNOWN_WITNESSES['filters:zero-length-chunk-corrupts-filter-state'] = {
+    'stage': 'iirfilter', 'p': {'order': 2}, 'two': False, 'ann': False, 's0': 0, 'fs': 1000.0, 'sizes': [5, 0, 7], 'seed': 1}
 _MATRICES = {1: [[[2]], [[-1]]],
              2: [[[1, -1], [0, 1]], [[2, 1], [1, 1]], [[0, 1], [1, 0]], [[1, 0], [0, 1]]],
              3: [[[1, -1, 0], [0, 1, -1], [0, 0, 1]], [[2, -1, -1], [-1, 2, -1], [1, 1, 1]]]}
